@@ -7,7 +7,7 @@ from . import state as statepack
 from .c17 import registry_closures, unittable, monthstep, range_rule, calfield, UNIT_MS
 from .c14 import ceil_rule
 from .c18 import tzapi_time
-from ..sym import RangeV
+from ..sym import RangeV, Ext
 
 EXPLANATION = (
     "C16.TABLES: d3_time_scaleSteps and d3_time_scaleLocalMethods have equal length, steps strictly increase and "
@@ -79,7 +79,8 @@ def choice(ctx, R):
         log = []
 
         def hook(fv, args, kwargs, node, st_):
-            if isinstance(fv, Closure) and fv.func.qual == "scale.d3_bisect":
+            if (isinstance(fv, Closure) and fv.func.qual == "scale.d3_bisect") or (isinstance(fv, Ext) and fv.name in ("bisect.bisect_right", "bisect.bisect") and len(args) == 2 and not kwargs):
+                # the library's own bisect-right (checked below) or the standard library's, which is bisect-right by definition
                 log.append(("bisect", [key(a) for a in args]))
                 return Num.atom("I")
             if isinstance(fv, Closure) and fv.func.qual == "scale.d3_scale_linearTickRange":
